@@ -235,3 +235,30 @@ def run(ctx, rep):
                 rep.check(got == want, 'R-C14-1s', 'recorded split sizes %s, files on disk %s' % (list(rec), list(disk)), ps.file,
                           'reports %d bytes' % got if got == want else 'reports %d bytes of parity although the files hold only %d: a truncated or replaced parity file passes the interlock and sync re-extends it with zeros' % (got, want),
                           function='parity_size', construct='parity size counts recorded bytes')
+
+    # the is_diff flag turns the zero-size refusal into a report (diff must not abort): it has to travel unchanged from the command
+    # to the place that tests it -- in every call between functions that both have an `is_diff` parameter the callee's is_diff is
+    # the caller's is_diff
+    rep.rule('R-C14-1d', 'is_diff is passed through unchanged along the scan call chain (scan_dir -> scan_sub -> scan_file / scan_link / scan_emptydir)', 5)
+    npass = 0
+    for g_ in P.defined():
+        if not (g_.file or '').endswith('scan.c'):
+            continue
+        mine = [k for k, a in enumerate(g_.args) if a.get('name') == 'is_diff']
+        if not mine:
+            continue
+        my_al = [aid for aid, k in g_.arg_allocas().items() if k == mine[0]]
+        for c_ in g_.calls():
+            h_ = P.functions.get(c_.callee_full) if c_.callee_full else None
+            if h_ is None or h_.decl:
+                continue
+            theirs = [k for k, a in enumerate(h_.args) if a.get('name') == 'is_diff']
+            if not theirs:
+                continue
+            npass += 1
+            o_ = g_.inst_of(c_.ops[theirs[0]])
+            ok = o_ is not None and o_.op == 'load' and g_.strip(o_.ops[0])[0] == 'i' and g_.strip(o_.ops[0])[1] in my_al
+            rep.check(ok, 'R-C14-1d', '%s -> %s' % (base(g_.name), base(h_.name)), c_.loc(), 'is_diff passed as is_diff' if ok else 'the callee receives `%s` as its is_diff: below this call sync behaves like diff (the zero-size interlock only reports) or diff like sync' % g_.expr(c_.ops[theirs[0]]),
+                      function=base(g_.name), construct='is_diff pass-through to %s' % base(h_.name))
+    if npass < 5:
+        raise AnalysisBroken('scan call chain with is_diff not recognised (%d calls)' % npass)
